@@ -104,14 +104,27 @@ func (r *responseWriter) Write(b []byte) (int, error) {
 	return r.writer.Write(b)
 }
 
+// Flush sends what has been written so far to the client; the response can be continued.
 func (r *responseWriter) Flush() {
+	if nil == r.writer {
+		return
+	}
 	if !r.wroteHeader {
 		r.WriteHeader(http.StatusOK)
 	}
-	_ = r.Close()
+	_ = r.writer.Flush()
 }
 
+// Close finishes the response and releases the writer; it is called once per request by the
+// handler adapter, further calls are no-ops.
 func (r *responseWriter) Close() (err error) {
+
+	if nil == r.writer {
+		return nil
+	}
+	if !r.wroteHeader {
+		r.WriteHeader(http.StatusOK)
+	}
 
 	if nil != r.chunkWriter {
 		err = r.chunkWriter.Close()
